@@ -703,6 +703,50 @@ def norm_ids(n, f):
     return n
 
 
+def reserve_room_rule(prog, rep):
+    """F9-room: the space netbuf_write_reserve hands out is inside the buffer it points into.  A pointer into the queue's last
+    buffer, &B->buf[B->datalen], is returned only under a test that B's *own* capacity leaves room: B->buflen - B->datalen >= len
+    (or the same with the terms moved); a new buffer is returned only with buf = malloc(buflen), datalen = 0 and buflen >= len
+    provable where it is returned (sa/poly.py; rounding up by masking is followed)."""
+    from .. import poly
+    from ..poly import Lin
+    u = prog.unit(WU)
+    f = u.func("netbuf_write_reserve")
+    if f is None:
+        raise cdb.AnalysisBroken("anchor missing: netbuf_write_reserve")
+    LEN = ("v", f.params[1]["name"], f.params[1]["id"])
+    A = poly.Analysis(f, quiet={"malloc", "free"}, unsigned_terms={LEN}).run()
+    n = 0
+    for r in f.returns():
+        v = norm(r.kid(0)) if r.kids else None
+        if v is None or v == ("c", 0):
+            continue
+        n += 1
+        if v[0] == "&" and v[1][0] == "[]":
+            base, idx = v[1][1], v[1][2]           # B->buf, B->datalen
+            obj = base[1] if base[0] == "." else None
+            cap = (".", obj, "buflen") if obj is not None else None
+            gs = [(op, L, R) for cond, truth in f.edge_conds(r) for op, L, R, _, _ in cond_atoms(cond, truth)]
+            ok = obj is not None and idx == (".", obj, "datalen") and any(
+                (op == ">=" and L == ("-", cap, idx) and R == LEN) or (op == "<=" and R == cap and L in (("+", idx, LEN), ("+", LEN, idx))) or
+                (op == "<=" and L == LEN and R == ("-", cap, idx)) for op, L, R in gs)
+            rep.check(ok, "F9-room", "netbuf_write_reserve: space in the queue's last buffer is handed out only when that buffer has it", r.where,
+                      "no controlling test `%s - %s >= len` of the buffer returned (conditions: %s)" % (show(cap) if cap else "?", show(idx), [(op, show(L), show(R)) for op, L, R in gs][:4]),
+                      function=f.name, construct="room-old")
+        else:
+            obj = v[1] if v[0] == "." else None
+            st = A.state_before(r)
+            cap = A.lin_term((".", obj, "buflen"), st) if (obj is not None and hasattr(A, "lin_term")) else None
+            if cap is None and obj is not None:
+                cap = Lin.var((".", obj, "buflen"))
+            ok = st is not None and obj is not None and A.holds(st, ">=", cap, Lin.var(LEN))
+            sized = [c for c in f.calls("malloc") if c.arg(0) is not None and obj is not None and norm(c.arg(0)) == (".", obj, "buflen")]
+            zero = [e for e in f.all_elems() if e.is_assign and e.op == "=" and obj is not None and norm(e.kid(0)) == (".", obj, "datalen") and norm(e.kid(1)) == ("c", 0) and f.dominates(e, r)]
+            rep.check(ok and bool(sized) and bool(zero), "F9-room", "netbuf_write_reserve: a new buffer is at least as large as the reservation", r.where,
+                      "buflen >= len shown: %s; buf = malloc(buflen): %s; datalen = 0 before the return: %s" % (ok, bool(sized), bool(zero)), function=f.name, construct="room-new")
+    return n
+
+
 def run(tier):
     rep = report.Report("C07", tier,
         "Decided on every path of netbuf_write.c and netbuf_read.c: the sticky failure flag and its guards (F1), in-flight buffer "
@@ -723,6 +767,8 @@ def run(tier):
         writer(prog, rep)
         writer_samebuf(prog, rep)
         from . import c14 as _c14
+        if reserve_room_rule(prog, rep) < 2:
+            rep.defer_broken("F9: netbuf_write_reserve has fewer than two returns that hand out space")
         _c14.reserve_flag_rule(prog, rep)      # the reservation mark: set by a successful reserve, cleared by consume, gone after a failed reserve
         orphan_rule(prog, rep)
         reader(prog, rep)
